@@ -114,6 +114,9 @@ func runC03(r *Report) {
 						sum = sm
 					}
 				}
+				if rc := readerChecksumOfValue(fn); rc != nil && sum == rc {
+					okC = true
+				}
 				if c, ok := sum.(*ssa.Call); ok && c.Call.IsInvoke() && c.Call.Method.Name() == "Sum64" {
 					if nc, ok := c.Call.Value.(*ssa.Call); ok && CalleeKey(nc) == "hash/crc64.New" {
 						okC = true
